@@ -84,12 +84,31 @@ def sec92():
     return "\n".join(out)
 
 
+def sec94():
+    out = ["| kind | property | /repo commit | signature | what failed |", "|---|---|---|---|---|"]
+    for l in open(os.path.join(V, "known_findings.txt")):
+        m = re.match(r"fixed: property=(C\d+) (\w+) sig=(\S+) (.*)", l)
+        if m:
+            out.append("| fixed | %s | %s | %s | %s |" % (m.group(1), m.group(2), m.group(3), m.group(4).strip().replace("|", "/")[:300]))
+        m = re.match(r"finding property=(C\d+) sig=(\S+) (.*)", l)
+        if m:
+            out.append("| finding | %s | - | %s | %s |" % (m.group(1), m.group(2), m.group(3).strip().replace("|", "/")[:300]))
+    return "\n".join(out)
+
+
 def main():
     p = os.path.join(V, "DESIGN.md")
     t = open(p).read()
     a = t.index("### 9.1 Status per property")
     b = t.index("### 9.2 Seeded changes and which checks catch them")
     c = t.index("### 9.3 ") if "### 9.3 " in t else t.index("## Appendix A.")
+    if "### 9.4 " in t:
+        d = t.index("### 9.4 ")
+        e = t.index("## Appendix A.")
+        t = t[:d] + t[e:]
+        c = t.index("### 9.3 ") if "### 9.3 " in t else t.index("## Appendix A.")
+    e = t.index("## Appendix A.")
+    t = t[:e] + "### 9.4 Defects repaired in /repo and findings carried (regenerated from known_findings.txt)\n\nEvery `fixed` row is one unguarded `fix:` commit in /repo (30 so far; the 247 baseline tests pass with all of them), its failing input is in `corpus/`, its reverse diff under `docs/mutations/` makes the property's check fail again. Every `finding` row is a genuine defect that is not repaired (dependency code, or no small safe patch): the check prints one `KNOWN-FINDING:` line for it and still fails on any other violation.\n\n" + sec94() + "\n\n" + t[e:]
     t = (t[:a] + "### 9.1 Status per property\n\n(regenerated by `tools/mkstatus.py` from evidence/, Props/, known_findings.txt; MANIFEST.json is the authoritative list of claims)\n\n"
          + sec91() + "\n\n" + "### 9.2 Seeded changes and which checks catch them\n\n(regenerated by `tools/mkstatus.py` from seeded/*/meta.json and seeded/RESULTS.json, which `tools/seeded.py` writes: each patch is applied to the tree, the property's quick check is run, the patch is undone)\n\n"
          + sec92() + "\n\n" + t[c:])
